@@ -147,6 +147,14 @@ def run(ctx):
             evs = []
             t = t0
             special = False
+            names = sorted(lp.REVERSE_MAP)
+            for ks in names[(si - 2) * 6:(si - 1) * 6] if si >= 2 else []:
+                # corpus: EVERY key the recorder has a name for (the live table) is pressed once, six per session
+                t += 1
+                p.set_time(t)
+                p.viewer_sends(struct.pack("!BBxxI", 4, 1, ks))
+                evs.append(("key", ks, True, t))
+                ctx.count("named_keys_pressed_once")
             for _ in range(r.randint(1, 25)):
                 t += r.choice([0, 1, 2, 17, 10000, 25000, 123456, 36000000])
                 if r.random() < .7 or (si < 2 and not evs):
